@@ -72,6 +72,16 @@ var vhC17Tpl = []string{
 	"{% block b %}{% block c %}{{ boomfn(x) }}{% endblock %}{% endblock %}",
 	"{{ x|boom is boomt }}",
 	"{% include 'inc' only %}",
+	// the result of a macro call used as a value (concatenated, compared, filtered, assigned, collected)
+	"{% macro m(a) %}{{ a|boom }}{% endmacro %}{{ 'p' ~ m(x) ~ 'q' }}",
+	"{% import 'lib' as l %}<{{ l.m(x) ~ '!' }}>",
+	"{% from 'lib' import m %}{% if m(x) == '(v)' %}y{% else %}n{% endif %}",
+	"{% macro m(a) %}{{ boomfn(a) }}{% endmacro %}{% set s = m(x) %}[{{ s }}]",
+	"{% macro m(a) %}{{ a|boom }}{% endmacro %}{{ [m(x), 'k']|join('-') }}",
+	"{% macro m(a) %}{{ a|boom }}{% endmacro %}{{ _self.m(x)|upper }}",
+	"{% import 'lib' as l %}{{ {'k': l.m(x)}|length }}",
+	"{% macro m(a) %}{{ a|boom }}{% endmacro %}{% for c in [m(x)] %}{{ c }}{% endfor %}",
+	"{% macro m(a) %}inc{% endmacro %}{% include m(boomfn(x)) ignore missing %}",
 	// relative names inside loader-served templates in a directory; the loader also has templates under
 	// the names as written ('./part', 'part'): a failure of the resolved template must not be papered
 	// over by rendering one of those
